@@ -244,6 +244,49 @@ let judge_line (line : string) =
              corr_full k oT
          | _ -> [z_of_int 99]) in
       report line (corr @ codes)
+  | "rc" :: _, res :: _ ->
+      bump opcount "ConcurrentRound"; Hashtbl.replace nontrivial (String.concat " " lhs) ();
+      report line (if res = "ok" then [] else [z_of_int 93])
+  | "al" :: opn :: _, rhs ->
+      bump opcount ("Alias" ^ opn);
+      (* r = dest,cond,err,extra ; on a system-limit error the destination and flags are unspecified *)
+      let norm t =
+        match String.split_on_char ',' t with
+        | [d; c; e; x] -> if e = "range" || e = "zeroprec" || e = "other" then "*,*," ^ e ^ ",*" else (ignore (dec_of_token d); d ^ "," ^ c ^ "," ^ e ^ "," ^ x)
+        | _ -> t in
+      let groups = split_all ";" rhs in
+      let all_same l = match List.map norm l with [] -> true | h :: t -> List.for_all (fun x -> x = h) t in
+      let codes = ref [] in
+      let first_a = ref "" in
+      List.iter (fun g ->
+        match g with
+        | "A" :: rs -> (match rs with h :: _ -> first_a := norm h | [] -> ()); if not (all_same rs) then codes := z_of_int 86 :: !codes
+        | "B" :: rs -> if not (all_same rs) then codes := z_of_int 86 :: !codes
+        | "D" :: rs -> if not (List.for_all (fun x -> norm x = !first_a) rs) then codes := z_of_int 87 :: !codes
+        | ["O"; v] -> if v <> "1" then codes := z_of_int 88 :: !codes
+        | ["G"; v] -> if v <> "1" then codes := z_of_int 89 :: !codes
+        | _ -> codes := z_of_int 99 :: !codes) groups;
+      if List.length rhs > 12 then Hashtbl.replace nontrivial (String.concat " " lhs) ();
+      report line (List.sort_uniq compare !codes)
+  | ["mo2"; d], rhs ->
+      bump opcount "AliasModf"; Hashtbl.replace nontrivial d ();
+      let groups = split_all ";" rhs in
+      (match groups with
+       | [[base]; [ia]; [fa]; [inil]; [fnil]; [ianil]; [fanil]; ["O"; ok]] ->
+           let pair t = match String.split_on_char ',' t with [a; b] -> (a, b) | _ -> ("?", "?") in
+           let (bi, bf) = pair base in
+           let c1 = (pair ia = (bi, bf)) && (pair fa = (bi, bf)) in
+           let c2 = (fst (pair fnil) = bi) && (snd (pair inil) = bf) && (fst (pair ianil) = bi) && (snd (pair fanil) = bf) in
+           List.iter (fun t -> let (a, b) = pair t in ignore (dec_of_token a); ignore (dec_of_token b)) [base; ia; fa];
+           report line ((if c1 && c2 then [] else [z_of_int 86]) @ (if ok = "1" then [] else [z_of_int 88]))
+       | _ -> report line [z_of_int 99])
+  | ["dm"; opn; x], rhs ->
+      bump opcount ("AliasDecimal" ^ opn); Hashtbl.replace nontrivial (opn ^ x) ();
+      (match rhs with
+       | [a; b; c; ";"; "O"; ok] ->
+           report line ((if a = b then [] else [z_of_int 86]) @ (if a = c then [] else [z_of_int 87]) @ (if ok = "1" then [] else [z_of_int 88]))
+       | _ -> report line [z_of_int 99])
+  | ["gs"; _; _], [v] -> bump opcount "GlobalsSnapshot"; report line (if v = "1" then [] else [z_of_int 89])
   | ["fm"; d], rhs when List.length rhs = 27 ->
       let (outs, back) = split_at "|" rhs in
       bump opcount "Format"; Hashtbl.replace nontrivial d ();
